@@ -14,6 +14,7 @@ h4['rungs']['quick'] = [dict(h4['rungs']['thorough'][-1], timeout=450)]
 h4['obligations'] = h['obligations'][:2] + ['4-block trees: a winning candidate is valid on its own ancestry; after every call exactly root..tip are applied (a block that was only validated next to the other chain is unapplied and re-validated before it can win)']
 hf = copy.deepcopy([x for x in _c02.HARNESSES if x['name'] == 'h_toyfork'][0])
 hf['obligations'] = h4['obligations']
-HARNESSES = [h, h4, hf]
+hr = copy.deepcopy([x for x in _real.CTX_HARNESSES if x['name'] == 'h_realrefs'][0])
+HARNESSES = [h, h4, hf, hr]
 EXPLANATION = _c02.EXPLANATION
 ASSUMPTIONS = _real.ASSUMPTIONS + _c02.ASSUMPTIONS + ['mempool payload filtering and payload removal paths are outside']
